@@ -40,6 +40,7 @@ static int fresh_id = 1000;
 static struct item *find(int kind, int id) { for (int i = nitems - 1; i >= 0; i--) if (items[i].kind == kind && items[i].id == id) return &items[i]; return NULL; }
 static struct item *mk(int kind, int id) { struct item *it = &items[nitems++]; memset(it, 0, sizeof(*it)); it->kind = kind; it->id = id; it->live = 1; return it; }
 enum { K_JOB = 1, K_TIMER, K_FD, K_SIG };
+static int live_sig(int signo) { for (int i = 0; i < nitems; i++) if (items[i].kind == K_SIG && items[i].live && items[i].signo == signo) return 1; return 0; }
 
 /* ---- fake epoll ---- */
 struct ereg { int fd; uint32_t events; uint64_t data; };
@@ -85,7 +86,10 @@ int epoll_wait(int epfd, struct epoll_event *events, int maxevents, int timeout)
 		}
 	}
 	/* a signal nobody handles would kill the process: the environment only delivers handled signals */
-	{ int w = 0; for (int i = 0; i < ns; i++) { struct sigaction sa; if (sigaction(sg[i], NULL, &sa) == 0 && sa.sa_handler != SIG_DFL && sa.sa_handler != SIG_IGN) sg[w++] = sg[i]; } ns = w; }
+	/* a signal is raised only while the application (this harness's own bookkeeping of its add / delete calls) has a
+	 * registration for it -- not "while the library happens to have a handler installed": a registration whose handler
+	 * the library lost must show (SIGUSR1/2 then take their default action) */
+	{ int w = 0; for (int i = 0; i < ns; i++) if (live_sig(sg[i])) sg[w++] = sg[i]; ns = w; }
 	for (int i = 0; i < ns; i++) raise(sg[i]);
 	uint64_t tmo_ns = timeout > 0 ? (uint64_t)timeout * 1000000ULL : 0;
 	/* 'T': sleep the whole timeout; like a real poll call it returns a little after the deadline */
@@ -209,6 +213,7 @@ static void exec_op(struct vt_line *L, int t0, int n, struct item *self, int sel
 		if (find(K_SIG, id)) return;
 		struct item *it = mk(K_SIG, id); it->signo = A(2); it->p = A(3); it->bid = bidarg(L, t0 + 4, self_bid);
 		int rc = qb_loop_signal_add(lp, it->p, it->signo, it, sig_cb, &it->sh);
+		if (rc != 0) it->live = 0;
 		vt_ev(op); vt_i(id); vt_i(it->signo); vt_i(it->p); vt_res(); vt_i(rc); vt_end();
 	} else if (!strcmp(op, "SigDel")) {
 		struct item *it = find(K_SIG, idarg(L, t0 + 1, self)); if (!it || !it->live) return;
